@@ -280,5 +280,10 @@ def jobs(tier):
     return js
 
 
+def all_jobs(tier):
+    from . import extra_misc
+    return jobs(tier) + extra_misc.jobs_for('C09', tier)
+
+
 def main(report, tier):
-    return summarize(report, runner.run_tasks(jobs(tier)), 'C09')
+    return summarize(report, runner.run_tasks(all_jobs(tier)), 'C09')
